@@ -82,3 +82,16 @@ Example C01_nonvacuous :
   canonb [B - 1; B - 1] = true /\ canonb [1] = true /\
   uadd addsub [B - 1; B - 1] [1] = Ret [0; 0; 1].
 Proof. split; [|split]; vm_compute; reflexivity. Qed.
+
+(* ---- added by the API audit (docs/API_COVERAGE.md): BigInt's INHERENT checked_add / checked_sub
+   (`x.checked_add(&y)` on a BigInt resolves to them, not to the CheckedAdd/CheckedSub trait rows of
+   the C10 table): always Some(exact canonical result). *)
+From BigNum Require Import ExtraOrd ExtraOrdProofs.
+Theorem C01_ichecked_add : forall x y, icanon x -> icanon y ->
+  ichecked_add addsub x y = Ret (Some (ienc (ival x + ival y))).
+Proof. intros; apply ichecked_add_spec; auto using addsub_params_ok. Qed.
+Print Assumptions C01_ichecked_add.
+Theorem C01_ichecked_sub : forall x y, icanon x -> icanon y ->
+  ichecked_sub addsub x y = Ret (Some (ienc (ival x - ival y))).
+Proof. intros; apply ichecked_sub_spec; auto using addsub_params_ok. Qed.
+Print Assumptions C01_ichecked_sub.
